@@ -221,6 +221,43 @@ def find_loops(toks: List[Tok], lo: int, hi: int) -> List[Tuple[int, int]]:
     return res
 
 
+def statement_starts(toks: List[Tok], body_open: int, body_close: int):
+    """(token index, brace depth) of every statement / tail-expression start inside the body; depth 1 = function body.
+    Tokens inside parentheses or brackets never start a statement."""
+    res = []
+    depth = 0
+    paren = 0
+    expect = False
+    for i in range(body_open, body_close + 1):
+        t = toks[i]
+        if t.kind == "punct" and t.text in ("(", "["):
+            paren += 1
+            expect = False
+            continue
+        if t.kind == "punct" and t.text in (")", "]"):
+            paren -= 1
+            continue
+        if t.kind == "punct" and t.text == "{":
+            depth += 1
+            expect = paren == 0
+            continue
+        if t.kind == "punct" and t.text == "}":
+            depth -= 1
+            expect = paren == 0
+            continue
+        if t.kind == "punct" and t.text in (";",):
+            expect = paren == 0
+            continue
+        if t.kind == "punct" and t.text == "=>":
+            expect = False
+            continue
+        if expect and paren == 0:
+            if not (t.kind == "ident" and t.text == "else") and not (t.kind == "punct" and t.text in (",", ".", "?", ")")):
+                res.append((i, depth))
+            expect = False
+    return res
+
+
 def find_closures(toks: List[Tok], lo: int, hi: int):
     """closures `|params| body` in source order -> (bar1, bar2, body_first_tok, body_last_tok_exclusive)"""
     res = []
@@ -502,6 +539,28 @@ class Splicer:
                 ghost_check(slines, name)
                 off = ms[nth].start() if name == "before" else ms[nth].end()
                 ins(off, "\n" + block + "\n", "ghost", **meta)
+            elif name == "at":
+                akv = parse_kv(args)
+                ghost_check(slines, "at")
+                starts = statement_starts(toks, body_open, body_close)
+                if args.strip().startswith("tail"):
+                    cands = [i for (i, d) in starts if d == 1]
+                    if not cands:
+                        raise SpliceError("lost anchor: %s: no tail expression" % key)
+                    ti = cands[-1]
+                else:
+                    depth = int(akv.get("depth", "1"))
+                    kw = akv.get("kw")
+                    nth = int(akv.get("nth", "0"))
+                    cands = [i for (i, d) in starts if d == depth and (kw is None or toks[i].text == kw)]
+                    if nth >= len(cands):
+                        raise SpliceError("lost anchor: %s: statement depth=%d kw=%s nth=%d not found (%d candidates)" %
+                                          (key, depth, kw, nth, len(cands)))
+                    ti = cands[nth]
+                if "expect" in akv and not re.match(akv["expect"], text[toks[ti].start:]):
+                    raise SpliceError("lost anchor: %s: statement at depth=%s kw=%s nth=%s does not look like /%s/: %r" %
+                                      (key, akv.get("depth"), akv.get("kw"), akv.get("nth"), akv["expect"], text[toks[ti].start:toks[ti].start + 50]))
+                ins(toks[ti].start, "\n" + block + "\n", "ghost", **meta)
             elif name == "all":
                 pass        # handled with the R11 rewrite below
             else:
